@@ -1,6 +1,6 @@
 (* Model/C10Tucker.v — executable model pieces for hosvd / tucker_als (pyttb/hosvd.py, pyttb/tucker_als.py,
    tensor.ttm): value-generic definitions only (no proofs).
-   * rank rule of hosvd.py:113-116 + column slice of hosvd.py:126 (transliteration, defect A-32 included)
+   * rank rule of hosvd.py:113-116 + column slice of hosvd.py:128 (transliteration of the code after the A-32 repair)
    * mode-n product (ttm) on dense arrays, matrix transpose, Gram of the mode-n unfolding
    * Tucker reconstruction through the shared denotation den_t *)
 From Coq Require Import List Arith Lia Bool.
@@ -24,24 +24,23 @@ Definition where_gt (l : list V) (t : V) : list nat :=
   filter (fun i => vltb t (nth i l v0)) (seq 0 (length l)).
 (* [...][-1]  (None = IndexError) *)
 Definition last_opt (l : list nat) : option nat := match rev l with [] => None | x :: _ => Some x end.
-(* the value hosvd stores in ranks[k] when it was 0 *)
-Definition auto_rank (eig : list V) (t : V) : option nat := last_opt (where_gt (eigsum eig) t).
-(* pi[0 : ranks[k] + 1]  — as written in hosvd.py:126 *)
-Definition keep_cols {A} (rk : nat) (p : list A) : list A := firstn (rk + 1) p.
-(* the repaired rule (fixes/C10-A-32.diff): ranks[k] holds the NUMBER of columns, slice pi[0:ranks[k]] *)
-Definition auto_rank_fixed (eig : list V) (t : V) : option nat :=
-  match auto_rank eig t with Some k => Some (k + 1) | None => None end.
-Definition keep_cols_fixed {A} (rk : nat) (p : list A) : list A := firstn rk p.
+(* index of the last reverse-cumulative sum that exceeds the threshold: np.where(eigsum > eigsumthresh)[0][-1] *)
+Definition last_above (eig : list V) (t : V) : option nat := last_opt (where_gt (eigsum eig) t).
+(* the value hosvd stores in ranks[k] when it was 0 (hosvd.py:116): that index + 1 = the NUMBER of columns kept *)
+Definition auto_rank (eig : list V) (t : V) : option nat :=
+  match last_above eig t with Some k => Some (k + 1) | None => None end.
+(* pi[0 : ranks[k]]  — hosvd.py:128 *)
+Definition keep_cols {A} (rk : nat) (p : list A) : list A := firstn rk p.
 
-(* number of columns of factor k: as coded, and as the property demands *)
+(* number of columns of factor k: as coded (user rank 0 = automatic), and as the property demands *)
 Definition ncols_impl (user_rank : nat) (eig : list V) (t : V) : option nat :=
   match user_rank with
-  | O => match auto_rank eig t with Some k => Some (length (keep_cols k eig)) | None => None end
+  | O => match auto_rank eig t with Some r => Some (length (keep_cols r eig)) | None => None end
   | _ => Some (length (keep_cols user_rank eig))
   end.
 Definition ncols_spec (user_rank : nat) (eig : list V) (t : V) : option nat :=
   match user_rank with
-  | O => match auto_rank eig t with Some k => Some (k + 1) | None => None end
+  | O => auto_rank eig t
   | _ => Some user_rank
   end.
 End RankRule.
